@@ -512,7 +512,9 @@ def flipRegisters (a : Analysis) (rf : Reg → Option Nat) : List Reg :=
   operand syntax: imm | reg:<r> | regm:<r> | abs32:<n> | abs64:<n> | deref:<b> | disp:<b>:<d> |
     is:<i>:<s> | isd:<i>:<s>:<d> | bis:<b>:<i>:<s> | bisd:<b>:<i>:<s>:<d> | the same with an `m` prefix
     (mderef … mbisd) for the masked variants | nothing
-  answer: PANIC | shape:<0|1> props:<dvpg bits> acc:<-|?|addr/null/size/type,…> ip:<?|none|upd/addr/null> regs:<-|…> flips:<-|…>
+  answer: PANIC shape:<0|1> | shape:<0|1> props:<dvpg bits> acc:<-|?|addr/null/size/type,…> ip:<?|none|upd/addr/null> flips:<-|…>
+  (`flips` = the registers of the analysis' register set for which `check_for_bitflips` reports a flip: the
+  only observable effect of the set)
 -/
 
 open Proto
@@ -640,7 +642,7 @@ def showAnalysis (i : Instr) (rf : Reg → Option Nat) (r : Outcome Analysis) : 
       | none => "?"
       | some .noUpdate => "none"
       | some (.update u) => s!"upd/{u.address}/{b01 u.null}"
-    s!"shape:{b01 (Shape i)} props:{b01 a.props.accessDerivable}{b01 a.props.division}{b01 a.props.privileged}{b01 a.props.onlyGpfWhenNonCanonical} acc:{acc} ip:{ip} regs:{listStr a.registers} flips:{listStr (flipRegisters a rf)}"
+    s!"shape:{b01 (Shape i)} props:{b01 a.props.accessDerivable}{b01 a.props.division}{b01 a.props.privileged}{b01 a.props.onlyGpfWhenNonCanonical} acc:{acc} ip:{ip} flips:{listStr (flipRegisters a rf)}"
 
 def parseIns (args : List String) : Option (Instr × Env) :=
   match args with
@@ -669,22 +671,25 @@ def splitReqs : List String → List String → List (List String)
   | [], acc => [acc.reverse]
   | x :: rest, acc => if x == "//" then acc.reverse :: splitReqs rest [] else splitReqs rest (x :: acc)
 
-/-- `opana ins …` one instruction; `opana batch ins … // ins …` several; `opana shapes opc:… ms:… ops:… // …`
-    only the shape verdicts (the decode-only sweep) -/
+def answerShape (args : List String) : String :=
+  match args with
+  | [opc, ms, ops] =>
+    match kvField "opc" opc, (kvField "ms" ms).bind parseMemSize, (kvField "ops" ops).bind (parseListSep ";" parseOperand) with
+    | some o, some m, some l => s!"shape:{b01 (Shape { opc := opcOfName o, memSize := m, operands := l })}"
+    | _, _, _ => "bad-op"
+  | _ => "bad-op"
+
+/-- `opana ins …` one instruction (full analysis); `opana sh opc:… ms:… ops:…` only the shape verdict;
+    `opana batch <item> // <item> …` several items of either kind -/
 def handle (args : List String) : String :=
   match args with
   | "ins" :: rest => answerIns rest
+  | "sh" :: rest => answerShape rest
   | "batch" :: rest =>
     joinWith " // " ((splitReqs rest []).map fun r => match r with
       | "ins" :: a => answerIns a
+      | "sh" :: a => answerShape a
       | _ => "bad-op")
-  | "shapes" :: rest =>
-    joinWith "" ((splitReqs rest []).map fun r => match r with
-      | [opc, ms, ops] =>
-        match kvField "opc" opc, (kvField "ms" ms).bind parseMemSize, (kvField "ops" ops).bind (parseListSep ";" parseOperand) with
-        | some o, some m, some l => b01 (Shape { opc := opcOfName o, memSize := m, operands := l })
-        | _, _, _ => "?"
-      | _ => "?")
   | _ => "bad-op"
 
 end MdModel.OpAnalysis
